@@ -13,13 +13,31 @@ SCORES = [".", "10", "9", "9.5", "100", "1e3", "-1", "0", "09", "a", "é"]
 STARTS = [1, 2, 5, 9, 10, 11, 99, 100, 101, 999, 1000, 20000]
 LENS = [0, 0, 1, 5, 9, 90, 91, 100, 1000, 9999]
 NAMES = ["a", "B", "b", "é", "10", "9", "x y"]
+# flavor "odd": text columns with a comma, a blank, a percent sign, an underscore or SQL/glob wildcard characters (each
+# next to the plain values a careless split / LIKE / GLOB would confuse it with)
+ODD_TYPES = ["exon,CDS", "exon", "CDS", "exon, CDS", "five prime UTR", "exon ", "100%", "%", "ex%n", "ex_n", "exon%",
+             "exAn", "_", "gene*", "gene?", "genes", "[a-z]", "e'x", 'e"x', "x;y"]
+ODD_SEQIDS = ["chr1,chr2", "chr1", "chr2", "chr 1", "chr%1", "chr_1", "chrA1", "%", "_", "chr*", "c'1"]
+ODD_SOURCES = ["src", "s,t", "s t", "s%", "s_t", "sAt", "*"]
+PROBES = ["exo%", "e_on", "ex*", "exon,", ",CDS", "CDS,exon", "%%", "__", "gene_", "absent"]   # never stored
+ODD_CHARS = [(",", "a comma"), (" ", "a blank"), ("%", "a percent sign"), ("_", "an underscore"),
+             ("*", "a wildcard"), ("?", "a wildcard"), ("[", "a wildcard")]
 
 
-def make_set(seed, n):
+def odd_classes(text):
+    return sorted(set(name for ch, name in ODD_CHARS if ch in text))
+
+
+def make_set(seed, n, flavor=None):
     rng = random.Random(seed * 104729 + 7)
-    seqids = rng.sample(SEQIDS, rng.choice([2, 3, 4, 6]))
-    types = rng.sample(TYPES, rng.choice([2, 3, 4, 6]))
-    sources = rng.sample(SOURCES, rng.choice([1, 2, 3]))
+    if flavor == "odd":
+        seqids = rng.sample(ODD_SEQIDS, rng.choice([3, 4, 6]))
+        types = rng.sample(ODD_TYPES[:3], rng.choice([2, 3, 3])) + rng.sample(ODD_TYPES[3:], rng.choice([2, 3, 5]))
+        sources = rng.sample(ODD_SOURCES, rng.choice([2, 3]))
+    else:
+        seqids = rng.sample(SEQIDS, rng.choice([2, 3, 4, 6]))
+        types = rng.sample(TYPES, rng.choice([2, 3, 4, 6]))
+        sources = rng.sample(SOURCES, rng.choice([1, 2, 3]))
     scores = rng.sample(SCORES, rng.choice([2, 4, 6]))
     starts = rng.sample(STARTS, rng.choice([3, 5, 8]))
     rows, lines = [], []
@@ -47,20 +65,85 @@ def make_set(seed, n):
         row["extra_in"] = extra
         rows.append(row)
         lines.append("\t".join(cols))
-    return {"rows": rows, "text": "\n".join(lines) + "\n", "seqids": seqids, "types": types, "starts": starts}
+    return {"rows": rows, "text": "\n".join(lines) + "\n", "seqids": seqids, "types": types, "starts": starts,
+            "flavor": flavor}
 
 
-def gen_query(rng, SET):
+def gen_history(rng, SET):
+    """A history applied to the database before it is queried: deletes (by id / by Feature object) and in-place
+    rewrites through add_relation(parent_func=, child_func=) that add attributes.  Plain data."""
+    ids = [r["id"] for r in SET["rows"]]
+    n = len(ids)
+    ops, gone, pairs = [], set(), set()
+    for _ in range(rng.randrange(2, max(4, n // 3))):
+        alive = [i for i in ids if i not in gone]
+        if len(alive) < 4:
+            break
+        if rng.random() < 0.5:
+            v = rng.choice(alive[:2] + alive[-2:] + alive) if rng.random() < 0.4 else rng.choice(alive)
+            gone.add(v)
+            ops.append({"op": "delete", "id": v, "form": rng.choice(["id", "feature"])})
+        else:
+            p, c = rng.sample(alive, 2)
+            if (p, c) in pairs:
+                continue
+            pairs.add((p, c))
+            ops.append({"op": "rewrite", "parent": p, "child": c, "level": rng.choice([1, 1, 2]),
+                        "funcs": rng.choice(["parent", "child", "both", "both"]), "tag": "h%d" % len(ops),
+                        "as": rng.choice(["id", "feature"])})
+    return ops
+
+
+def long_types(ft, pad):
+    """The featuretype collection of a 'long' query: pad["n"] (1000-1200) entries, the types of `ft` spread over the
+    whole list (first, last, around the 999th/1000th place, elsewhere), the rest types that no feature has; with
+    pad["dups"] about a tenth of the entries are repeats (of matching types and of fillers).  Deterministic."""
+    r = random.Random(pad["seed"])
+    n = pad["n"]
+    out = ["none%04d" % i for i in range(n)]
+    special = sorted(set(x for x in (0, n - 1, 998, 999, 1000, n // 2, n // 3) if x < n))
+    r.shuffle(special)
+    places = special[:len(ft)]
+    while len(places) < len(ft):
+        x = r.randrange(n)
+        if x not in places:
+            places.append(x)
+    order = list(ft)
+    r.shuffle(order)
+    for pos, t in zip(places, order):
+        out[pos] = t
+    if pad["dups"]:
+        taken = set(places)
+        for _ in range(n // 10):
+            x = r.randrange(n)
+            if x in taken:
+                continue
+            taken.add(x)
+            out[x] = r.choice(order) if r.random() < 0.4 else out[r.randrange(n)]      # a repeat of another entry
+    return out
+
+
+def gen_query(rng, SET, long_ft=False):
     q = {"api": "all_features" if rng.random() < 0.6 else "features_of_type"}
-    if q["api"] == "all_features" and rng.random() < 0.4:
+    odd = SET.get("flavor") == "odd"
+    if long_ft:
+        q["ft_form"] = rng.choice(["list", "tuple", "set"])
+        pool = list(SET["types"])
+        k = min(len(pool), rng.choice([1, 2, 3, 4]))
+        q["ft"] = sorted(rng.sample(pool, k))
+        q["ft_pad"] = {"n": rng.randrange(1000, 1201), "seed": rng.randrange(1 << 30),
+                       "dups": q["ft_form"] != "set" and rng.random() < 0.5}
+    elif q["api"] == "all_features" and rng.random() < 0.4:
         q["ft"], q["ft_form"] = None, None
     else:
         q["ft_form"] = rng.choice(["str", "str", "list", "tuple", "set"])
-        pool = SET["types"] + [rng.choice(TYPES), "absent"]
+        pool = SET["types"] + ([rng.choice(ODD_TYPES), rng.choice(PROBES)] if odd else [rng.choice(TYPES), "absent"])
         k = 1 if q["ft_form"] == "str" else rng.choice([1, 2, 2, 3])
         q["ft"] = sorted(set(rng.choice(pool) for _ in range(k)))
     q["strand"] = rng.choice([None, None, None, "+", "-", "."])
     r = rng.random()
+    if long_ft:
+        r = 0.12 + r * 0.88 if r > 0.05 else r      # nearly always ordered
     if r < 0.12:
         q["order_by"] = None
     elif r < 0.57:
